@@ -82,8 +82,13 @@ def build_harness(ctx, tags="verif"):
     else:
         shutil.copyfile(os.path.join(REPO, "go.sum"), os.path.join(HARNESS, "go.sum"))
     cmd.append("./cmd/lalexec")
-    p = subprocess.run(cmd, cwd=HARNESS, env=goenv(), capture_output=True, text=True)
-    if p.returncode != 0:
+    for attempt in range(4):
+        p = subprocess.run(cmd, cwd=HARNESS, env=goenv(), capture_output=True, text=True)
+        if p.returncode == 0:
+            break
+        if attempt < 3 and os.environ.get("VERIF_BUILD_RETRY", "1") == "1":
+            time.sleep(15)   # another task may be in the middle of writing a driver file
+            continue
         sys.stderr.write(p.stdout + p.stderr)
         raise Infra("harness build failed")
     ctx.bin = out
